@@ -256,6 +256,7 @@ func addEmptySSALines(t *rapid.T, d *ssaDoc) {
 
 func TestC04(t *testing.T) {
 	runWitnesses(t, "C04")
+	cliConvertCases(t, "C04", "ssa")
 	rapidCheck(t, "C04/read", tier(3000, 300000), func(rt *rapid.T) {
 		doc, cols := genSSADoc(rt, false)
 		addEmptySSALines(rt, &doc)
